@@ -260,6 +260,8 @@ def _c09(tier, seed):
     runs += ["H_C09_results(2,0,2)", "H_C09_results(2,2,2)", "H_C09_results(2,1,3)"]
     # a clock that stands still or is set back while calls are outstanding: the calls' ids must stay distinct
     runs += ["H_C09_clock(3,0,0,0)", "H_C09_clock(3,0,1,-1000000)", "H_C09_clock(2,2,0,0)", "H_C09_clock(3,1,1,0)"]
+    # an rpc_error as the answer to a call that declared a vector result
+    runs += ["H_C09_error_for_hinted(%d)" % k for k in (0, 1, 2)]
     if not q:
         runs += ["H_C09_clock(3,2,0,-1000000)", "H_C09_clock(3,0,2,0)", "H_C09_clock(3,0,0,-1000)"]
     if not q:
